@@ -162,15 +162,15 @@ func nontrivial(c tcase) bool {
 
 func TestC11_LengthsExhaustive(t *testing.T) {
 	defer sm4.SetIV(make([]byte, 16))
-	max := 80
-	if hx.Thorough() {
-		max = 1024
-	}
+	max := 1024
 	lo, hi := hx.ShardRange(0, max+1)
 	var n int64
 	for l := lo; l < hi; l++ {
 		for mi, mode := range modes {
 			for _, spare := range []int{0, 16, 1} {
+				if l > 80 && !hx.Thorough() && spare != 0 {
+					continue // quick: every length up to 1024 once per mode, the spare-capacity variants up to 80
+				}
 				c := tcase{mode: mode, key: make([]byte, 16), iv: make([]byte, 16), pt: make([]byte, l), spareIn: spare, spareKey: spare}
 				s := uint64(hx.Seed())*1315423911 + uint64(l*16+mi*4+spare)
 				gen.Fill(c.key, s)
@@ -193,9 +193,9 @@ func TestC11_LengthsExhaustive(t *testing.T) {
 
 func TestC11_Random(t *testing.T) {
 	defer sm4.SetIV(make([]byte, 16))
-	maxLen := 600
+	maxLen := 2200 // beyond one and two KiB: internal buffering boundaries of the helpers
 	if hx.Thorough() {
-		maxLen = 5000
+		maxLen = 70000
 	}
 	hx.Check(t, hx.N(4000, 60000), func(t *rapid.T) {
 		c := tcase{
@@ -227,10 +227,22 @@ func TestC11_ErrorsAndIndependence(t *testing.T) {
 		n := rapid.IntRange(0, 40).Draw(t, "n")
 		bad := gen.BytesN(n).Draw(t, "bad")
 		if n != 16 {
-			good := make([]byte, 16)
+			good := gen.BytesN(16).Draw(t, "goodiv")
 			sm4.SetIV(good)
 			if err := sm4.SetIV(bad); err == nil {
 				t.Fatalf("SetIV accepted %d bytes", n)
+			}
+			// a refused IV must leave the IV in force untouched: the helpers still compute the standard modes under it
+			k16, pt := gen.BytesN(16).Draw(t, "k16"), gen.Bytes(gen.LenAround(16, 64)).Draw(t, "ptAfter")
+			for _, mode := range modes {
+				var out []byte
+				var err error
+				if pn := hx.Try(func() { out, err = helper(mode)(k16, pt, true) }); pn != nil {
+					t.Fatalf("%s panicked after a refused SetIV(%d bytes): %v", mode, n, pn.Val)
+				}
+				if want := refEncrypt(mode, k16, good, pt); err != nil || !bytes.Equal(out, want) {
+					t.Fatalf("after SetIV(good) and a REFUSED SetIV(%d bytes), %s no longer uses the IV in force: got %x want %x (err %v)", n, mode, out, want, err)
+				}
 			}
 			for _, mode := range modes {
 				out, err := helper(mode)(bad, []byte("0123456789abcdef0"), true)
